@@ -137,7 +137,10 @@ class Roles:
         if kind == "with" and val is not None:
             return f"with({self._of(val, stmt, env, d)})"
         if kind == "aug":
-            return f"aug({name})"
+            op = type(stmt.op).__name__ if isinstance(stmt, ast.AugAssign) \
+                else "?"
+            return f"aug({op} {self._of(val, stmt, env, d)})" \
+                if val is not None else "aug(?)"
         return f"?{name}"
 
     def _stmt_of(self, name: ast.AST, loc: ast.AST) -> ast.AST:
@@ -219,6 +222,14 @@ class Roles:
         if isinstance(e, ast.Set):
             return "{" + ",".join(sorted(f(x, loc, env, d) for x in e.elts)) \
                 + "}"
+        if isinstance(e, ast.JoinedStr):
+            out = []
+            for v in e.values:
+                if isinstance(v, ast.Constant):
+                    out.append(str(v.value))
+                elif isinstance(v, ast.FormattedValue):
+                    out.append("{" + f(v.value, loc, env, d) + "}")
+            return "f'" + "".join(out) + "'"
         if isinstance(e, ast.Starred):
             return "*" + f(e.value, loc, env, d)
         if isinstance(e, _COMPS):
